@@ -190,22 +190,28 @@ func mathRad(L *LState) int {
 }
 
 func mathRandom(L *LState) int {
+	// a state that has called math.randomseed draws from its own generator:
+	// what it computes must not depend on what other states draw
+	float64f, intn := rand.Float64, rand.Intn
+	if L.G.rnd != nil {
+		float64f, intn = L.G.rnd.Float64, L.G.rnd.Intn
+	}
 	switch L.GetTop() {
 	case 0:
-		L.Push(LNumber(rand.Float64()))
+		L.Push(LNumber(float64f()))
 	case 1:
 		n := L.CheckInt(1)
-		L.Push(LNumber(rand.Intn(n) + 1))
+		L.Push(LNumber(intn(n) + 1))
 	default:
 		min := L.CheckInt(1)
 		max := L.CheckInt(2) + 1
-		L.Push(LNumber(rand.Intn(max-min) + min))
+		L.Push(LNumber(intn(max-min) + min))
 	}
 	return 1
 }
 
 func mathRandomseed(L *LState) int {
-	rand.Seed(L.CheckInt64(1))
+	L.G.rnd = rand.New(rand.NewSource(L.CheckInt64(1)))
 	return 0
 }
 
